@@ -356,7 +356,9 @@ func genRedir(r *rand.Rand, classes *[]string, safe bool) string {
 		}
 		if dstIsZero {
 			switch src {
-			case "1", "2", "stdout", "stderr":
+			case "1", "2", "stdout", "stderr", "3", "7":
+				// 3 and 7 may have been made duplicates of an output port by an
+				// earlier redirection of the same form (3>>&stdout 0>>&3)
 				src = "0"
 			}
 		}
@@ -1106,7 +1108,7 @@ func Spec() *mon.Spec {
 			"External commands cannot run: PATH is empty and no generated string contains an absolute path; epm (git/network via external commands) and readline-binding (needs a live editor) are not loaded.",
 			"Resource policy of the property (memory/time exhaustion is not a crash): numeric arguments that only scale memory or time are capped for read-bytes, repeat, range, str:repeat, math:pow (exponent), sleep and benchmark (min-time/min-runs); " +
 				"redirection destinations between 4097 and 2^60 are not generated (the port table is a slice indexed by fd; such a program dies by memory exhaustion, observed as 'fatal error: out of memory' for 99999999999>f). Evaluations that are still running when given up are counted inconclusive.",
-			"Reading values from a *live* output channel (0<&1 while port 1 is a terminal/capture/pipe port) waits for the writer by design and is not generated; reading from a pipe whose write end stays open is not generated either. Reading from a port that has no value channel at all (closed with >&- or redirected to a file) is generated: it must not block for good.",
+			"Reading values from a *live* output channel (0<&1 while port 1 is a terminal/capture/pipe port, also through an intermediate duplicate such as 3>&1 0<&3) waits for the writer by design and is not generated; reading from a pipe whose write end stays open is not generated either. Reading from a port that has no value channel at all (closed with >&- or redirected to a file) is generated: it must not block for good.",
 			"A producer that emits more values than the (unspecified) channel buffer into a consumer that reads only bytes waits for that consumer, which waits for the producer's end of file (language.md, Pipeline: 'Elvish may have internal buffering ... The exact buffer size is not specified'): such program-level deadlocks (repeat 40 x | slurp) are not generated, and an evaluation goroutine that waits in a read is never counted as a hang.",
 			"A hang verdict needs either a goroutine of the evaluation in a state that can never be left (nil-channel operation) or two identical goroutine snapshots with no runnable Elvish goroutine and the evaluation goroutine waiting on a channel or lock (not on I/O).",
 			"All programs of a child process share process-global state (cwd, environment, umask, wcwidth overrides, random seed); the work directory and the environment are rebuilt before every program.",
